@@ -1,9 +1,10 @@
 """C20 -- configuration validation enforces documented option domains and fills defaults."""
 import ast
+import re
 
 from ..index import AnalysisError, walk_own, unparse, short, ancestors
 from ..cfg import cfg_of
-from .. import nf, lib, tables
+from .. import nf, lib, prop, tables
 from ..selftest import Mutant, Benign
 
 ID = 'C20'
@@ -110,6 +111,7 @@ def check(ctx):
     d6_vendored(ctx, idx, fam)
     d7_answers(ctx, idx, fam)
     d7_revalidate(ctx, idx, fam)
+    d7_oneshot(ctx, idx, fam)
 
 
 class Family(object):
@@ -1484,6 +1486,32 @@ def _sites_of(idx, fi):
     return sites
 
 
+_METAVAR = re.compile(r'\b_[A-Z]\w*\b')
+
+
+def _same_refusals(c, rules, conj):
+    """Decide over the truth table of the atoms whether the raise site with path condition `conj` refuses the same
+    configurations as rule c.  A chain of refusals may be reordered or flattened into a table (each path condition then
+    carries the negations of the refusals before it); the configurations refused are the same when (1) this site refuses
+    nothing the rule does not name and (2) whatever the rule names and this site lets through is refused by another
+    reviewed rule of the same function.  Only for rules whose reviewed condition has no metavariables."""
+    if conj is None or not c.patterns:
+        return False
+    concrete = [p_ for p_ in c.patterns if not _METAVAR.search(p_)]
+    others = [c2.patterns[0] for c2 in rules if c2 is not c and c2.patterns and not _METAVAR.search(c2.patterns[0])]
+    if not concrete:
+        return False
+    exp_ = prop.disjunction(concrete)
+    if not prop.implies(conj, exp_):
+        return False
+    if prop.implies(exp_, conj):
+        return True
+    if not others:
+        return False
+    let_through = ast.BoolOp(op=ast.And(), values=[exp_, ast.UnaryOp(op=ast.Not(), operand=conj)])
+    return bool(prop.implies(let_through, prop.disjunction(others)))
+
+
 def d5_cross(ctx, idx, fam):
     r = ctx.rule('D5.CROSS', 'every cross-option rule has a reachable raise site with the reviewed condition, and its checker '
                              'runs on every construction path', floor=49)
@@ -1556,6 +1584,8 @@ def d5_cross(ctx, idx, fam):
                             alt = c.recognise(owner, conj)
                             if alt is not None:
                                 res = alt
+                        if res != nf.MATCH and _same_refusals(c, rules, conj):
+                            res = nf.MATCH
                         if res == nf.MATCH:
                             exact.append((owner, rs, conj, key))
                             break
@@ -2704,26 +2734,10 @@ def d7_answers(ctx, idx, fam):
         else:
             _absent(r, idx, vs, 'ItemGrader.validate_single_answer [fallback]', 'plain (non-dictionary) answers are no longer converted into the '
                         "dictionary form", vs.loc, expected="self.schema_answer({'expect': answer, 'ok': True})")
-        recs = [n for n in walk_own(vs.node) if isinstance(n, ast.If) and any(
-            isinstance(s, ast.Assign) and lib.subscript_key(s.targets[0]) == 'ok' for s in n.body)]
-        if len(recs) != 1:
-            r.violation('ItemGrader.validate_single_answer [ok]', "'ok' is no longer computed from grade_decimal", vs.loc)
-        else:
-            res = nf.classify("_V['ok'] == 'computed' or _V['grade_decimal'] != 1", lib.inline_locals(recs[0].test, vs.node, depth=2))
-            st = [s for s in recs[0].body if isinstance(s, ast.Assign) and lib.subscript_key(s.targets[0]) == 'ok'][0]
-            st_value = lib.inline_locals(st.value, vs.node, depth=2)
-            val_ok = nf.classify(["self.grade_decimal_to_ok(_V['grade_decimal'])", "ItemGrader.grade_decimal_to_ok(_V['grade_decimal'])",
-                                  "AbstractGrader.grade_decimal_to_ok(_V['grade_decimal'])"], st_value) == nf.MATCH
-            if res == nf.MATCH and val_ok:
-                r.ok('ItemGrader.validate_single_answer [ok]', "recomputed when 'computed' or grade_decimal != 1", lib.loc(vs, recs[0]))
-            elif isinstance(res, tuple):
-                r.violation('ItemGrader.validate_single_answer [ok]', "the condition for recomputing 'ok' changed: %s" % res[1],
-                            lib.loc(vs, recs[0]), expected="ok == 'computed' or grade_decimal != 1", found=short(recs[0].test))
-            elif not val_ok and res == nf.MATCH:
-                r.violation('ItemGrader.validate_single_answer [ok]', "'ok' is recomputed as `%s`" % short(st.value), lib.loc(vs, st),
-                            expected="self.grade_decimal_to_ok(validated_answer['grade_decimal'])")
-            else:
-                r.undecided('ItemGrader.validate_single_answer [ok]', 'not recognised: %s' % short(recs[0].test), lib.loc(vs, recs[0]))
+        # the ok an answer ends up with: truth table over (ok == 'computed', grade_decimal != 1), shared with C01.D4
+        # (layout-independent: compound test, guard clauses, or a conditional expression)
+        from . import c01 as _c01
+        _c01._d4_pin_table(r, vs)
         rets = lib.returns_of(vs.node)
         r.check(len(rets) == 1 and isinstance(rets[0].value, ast.Name), 'ItemGrader.validate_single_answer [result]',
                 'returns the validated dictionary', 'validate_single_answer does not return the validated answer', vs.loc)
@@ -3017,6 +3031,81 @@ def d7_revalidate(ctx, idx, fam):
                 r.ok(construct, 'shapes %s (returned: %s) reach no subscript of an empty value' % (feed, sorted(outs) or 'input itself'), fi.loc)
 
 
+def _finite_generator(fi):
+    """Does the generator function have a yield that is not inside an endless `while True` loop?"""
+    for n in walk_own(fi.node):
+        if isinstance(n, (ast.Yield, ast.YieldFrom)):
+            endless = False
+            for a in ancestors(n):
+                if a is fi.node:
+                    break
+                if isinstance(a, ast.While) and isinstance(a.test, ast.Constant) and a.test.value:
+                    endless = True
+            if not endless:
+                return True
+    return False
+
+
+def d7_oneshot(ctx, idx, fam):
+    r = ctx.rule('D7.ONESHOT', 'the answers normalisers do not consume a one-shot iterator created outside a loop inside that loop '
+                               '(every answer list is validated, not only the first)', floor=6)
+    with r:
+        for q, legal in REVALIDATED:
+            fi = idx.func(q)
+            name = q.split('.', 1)[1].replace('mitxgraders.', '')
+            found = None
+            for st in walk_own(fi.node):
+                if not (isinstance(st, ast.Assign) and len(st.targets) == 1 and isinstance(st.targets[0], ast.Name)):
+                    continue
+                v = st.value
+                gen = None
+                gen_q = None
+                if isinstance(v, ast.GeneratorExp):
+                    gen = 'a generator expression'
+                elif isinstance(v, ast.Call):
+                    cn = nf.callee_name(v)
+                    if isinstance(v.func, ast.Name) and cn in ('iter', 'zip', 'map', 'filter', 'enumerate', 'reversed'):
+                        gen = 'the one-shot iterator %s(...)' % cn
+                    else:
+                        try:
+                            targets, how = idx.resolve_call(fi, v)
+                        except Exception:
+                            targets = []
+                        gens = [t for t in targets if hasattr(t, 'node') and any(isinstance(x, (ast.Yield, ast.YieldFrom)) for x in walk_own(t.node))]
+                        if gens and len(gens) == len([t for t in targets if hasattr(t, 'node')]) and any(_finite_generator(g) for g in gens):
+                            gen = 'the generator %s()' % gens[0].name
+                            gen_q = gens[0].qualname
+                if gen is None:
+                    continue
+                var = st.targets[0].id
+                # consumed inside a data loop that does not contain the assignment
+                for lp in [n for n in walk_own(fi.node) if isinstance(n, ast.For)]:
+                    if any(st is x for x in ast.walk(lp)):
+                        continue
+                    if lp.lineno < st.lineno:
+                        continue
+                    uses = [n for b_ in lp.body for n in ast.walk(b_) if isinstance(n, ast.Name) and n.id == var and isinstance(n.ctx, ast.Load)]
+                    reassigned = any(isinstance(n, ast.Name) and n.id == var and isinstance(n.ctx, ast.Store) for b_ in lp.body for n in ast.walk(b_))
+                    literal_once = isinstance(lp.iter, (ast.Tuple, ast.List)) and len(lp.iter.elts) <= 1
+                    if uses and not reassigned and not literal_once:
+                        found = (st, lp, var, gen, gen_q)
+                        break
+                if found:
+                    break
+            construct = '%s [one-shot iterators]' % name
+            if found:
+                st, lp, var, gen, gen_q = found
+                if gen_q:
+                    construct += ' (generator function %s, analysed as a whole)' % gen_q
+                r.violation(construct, '`%s` is %s created once before `for %s in %s` and consumed inside that loop: it is exhausted after the '
+                            'first iteration, so from the second answer list on nothing is paired with it -- later alternative answer lists are '
+                            'neither validated nor normalised (and are then graded in their raw form)'
+                            % (var, gen, unparse(lp.target), short(lp.iter, 40)), lib.loc(fi, st),
+                            expected='create the iterator inside the loop (one per answer list)')
+            else:
+                r.ok(construct, 'no one-shot iterator created outside a loop is consumed inside it', fi.loc)
+
+
 # ------------------------------------------------------------------------ self-test
 _ARD_OLD = ("        base = {}\n        config_dicts.reverse()\n        for entry in config_dicts:\n            if entry is not None:\n"
             "                base.update(entry)\n\n        # Report that modified defaults are being used\n"
@@ -3070,6 +3159,8 @@ MUTANTS = [
            "        name_keys = ['variables', 'user_constants']\n        for key in name_keys:\n            warn_if_override(self.config, key, self.default_variables)\n        warn_if_override(self.config, 'user_functions', self.default_functions)\n        validate_no_collisions(self.config, keys=name_keys)\n", 'D5'),
     Mutant('seeded-C20j-single-subgrader-check-only-for-multi-input-groups', LG, "        if not self.subgrader_list and not isinstance(self.config['subgraders'], ListGrader):\n            msg = \"A ListGrader with groupings must have a ListGrader subgrader \" + \\\n                  \"or a list of subgraders\"\n            raise ConfigError(msg)\n",
            "        for group in self.grouping:\n            if len(group) > 1 and not self.subgrader_list and not isinstance(self.config['subgraders'], ListGrader):\n                raise ConfigError(\"A ListGrader with groupings must have a ListGrader subgrader or a list of subgraders\")\n", 'D5'),
+    Mutant('seeded-C20k-one-shot-iterator-shared-by-all-answer-lists', LG, "            subgrader = self.config['subgraders']\n\n            # Validate answer_list using the subgraders\n            for answer_list in answers_tuple:\n                for idx, answer in enumerate(answer_list):\n                    # Run the answers through the subgrader schema and the post-schema validation\n                    answer_list[idx] = subgrader.schema_answers(answer)",
+           "            subgrader = self.config['subgraders']\n            positions = iter(range(len(answers_tuple[0])))\n\n            for answer_list in answers_tuple:\n                for idx, answer in zip(positions, answer_list):\n                    answer_list[idx] = subgrader.schema_answers(answer)", 'D7'),
     Mutant('whitelist-blacklist-or', MH, "    if blacklist and whitelist:\n        raise ConfigError", "    if blacklist or whitelist:\n        raise ConfigError", 'D5'),
     Mutant('unordered-check-removed', LG, "            if not self.config['ordered']:\n                raise ConfigError('Cannot use unordered lists with multiple graders')\n", "", 'D5'),
     Mutant('contiguity-unreachable', LG, "        if not group_nums == set(range(1, max(group_nums) + 1)):", "        if False:", 'D5'),
@@ -3213,6 +3304,8 @@ BENIGN = [
     Benign('override-checks-from-table', MH,
            "        warn_if_override(self.config, 'variables', self.default_variables)\n        warn_if_override(self.config, 'numbered_vars', self.default_variables)\n        warn_if_override(self.config, 'user_constants', self.default_variables)\n        warn_if_override(self.config, 'user_functions', self.default_functions)\n",
            "        for key, defaults in (('variables', self.default_variables), ('numbered_vars', self.default_variables),\n                              ('user_constants', self.default_variables), ('user_functions', self.default_functions)):\n            warn_if_override(self.config, key, defaults)\n"),
+    Benign('C20k-corrected-iterator-per-answer-list', LG, "            subgrader = self.config['subgraders']\n\n            # Validate answer_list using the subgraders\n            for answer_list in answers_tuple:\n                for idx, answer in enumerate(answer_list):\n                    # Run the answers through the subgrader schema and the post-schema validation\n                    answer_list[idx] = subgrader.schema_answers(answer)",
+           "            subgrader = self.config['subgraders']\n\n            for answer_list in answers_tuple:\n                positions = iter(range(len(answers_tuple[0])))\n                for idx, answer in zip(positions, answer_list):\n                    answer_list[idx] = subgrader.schema_answers(answer)"),
     Benign('log-in-init', BASE, "        # Validate the configuration\n        self.config = self.validate_config(use_config)",
            "        _n = len(use_config) if isinstance(use_config, dict) else 0\n        self.config = self.validate_config(use_config)"),
 ]
